@@ -8,3 +8,8 @@ package inproc
 //@   immutable: closeq readyq selfProto peerProto addr
 //@   never_closed: rq wq
 //@   elem_invariant rq, wq: elem != nil && arrof(elem.Header) != arrof(elem.Body) && len(elem.Header) == 0 && !shared(elem)
+//@
+//@ func (*inproc).Send
+//@   before select#1 assert len(nmsg.Header) == 0 && len(nmsg.Body) == len(m.Header) + len(m.Body)
+//@   before select#1 assert eqseq(nmsg.Body[:len(m.Header)], m.Header) && eqseq(nmsg.Body[len(m.Header):], m.Body)
+//@   before select#1 assert arrof(nmsg.Body) != arrof(m.Body) && arrof(nmsg.Body) != arrof(m.Header)
